@@ -3,8 +3,15 @@
 //! usage: vverif <Cxx> quick|thorough [--replay FILE] [--shard i/n --out FILE]
 
 mod engine;
+mod fdtrack;
+mod gen;
 mod props;
+mod rawpeer;
+mod rec_backend;
 mod refpred;
+mod spec;
+mod srv;
+mod stream;
 
 use std::process::Command;
 
@@ -75,6 +82,10 @@ fn main() {
         .map(|v| v as u64)
         .unwrap_or(0);
 
+    if def.isolate && std::env::var("VVERIF_CHILD").is_err() && shard.is_none() {
+        std::process::exit(supervise(def, &args[1..], tier, seed, replay.is_some()));
+    }
+
     install_panic_hook();
     let mut ctx = Ctx::new(def.id, tier, seed, def.level);
 
@@ -126,6 +137,8 @@ fn main() {
         for si in 0..n {
             let outp = dir.join(format!("{}-{}.json", def.id, si));
             let _ = std::fs::remove_file(&outp);
+            let infl = inflight_path(def.id, &format!("shard{si}"));
+            let _ = std::fs::remove_file(&infl);
             let child = Command::new(&exe)
                 .arg(def.id)
                 .arg("thorough")
@@ -134,25 +147,80 @@ fn main() {
                 .arg("--out")
                 .arg(&outp)
                 .env("VERIF_SEED", seed.to_string())
+                .env("VVERIF_CHILD", "1")
+                .env("VVERIF_INFLIGHT", &infl)
                 .spawn()
                 .expect("spawn shard");
-            kids.push((child, outp));
+            kids.push((child, outp, infl));
         }
         // the engine-level metadata (rule, assumptions) come from a zero-work description pass
         describe_only(def, &mut ctx);
-        for (mut child, outp) in kids {
+        for (mut child, outp, infl) in kids {
             let st = child.wait().expect("wait shard");
             match std::fs::read_to_string(&outp).ok().and_then(|t| serde_json::from_str::<serde_json::Value>(&t).ok()) {
                 Some(v) => ctx.merge_partial(&v),
-                None => ctx.note_inconclusive(format!("shard {} produced no result (status {st})", outp.display())),
+                None => {
+                    if def.isolate && st.code().is_none() {
+                        report_crash(def.id, &infl, &format!("{st}"), &mut ctx);
+                    } else {
+                        ctx.note_inconclusive(format!("shard {} produced no result (status {st})", outp.display()));
+                    }
+                }
             }
             let _ = std::fs::remove_file(&outp);
+            let _ = std::fs::remove_file(&infl);
         }
         ctx.extra.insert("shards".into(), serde_json::json!(n));
     } else {
         (def.run)(&mut ctx);
     }
     std::process::exit(ctx.finish());
+}
+
+fn inflight_path(id: &str, tag: &str) -> String {
+    let dir = std::path::Path::new(engine::VERIF_DIR).join("target").join("inflight");
+    let _ = std::fs::create_dir_all(&dir);
+    dir.join(format!("{id}-{}-{tag}.bin", std::process::id())).display().to_string()
+}
+
+/// turn the in-flight record of a crashed worker into a violation with a replay file
+fn report_crash(id: &str, infl: &str, status: &str, ctx: &mut Ctx) {
+    match engine::Inflight::read_file(infl).and_then(|b| serde_json::from_slice::<serde_json::Value>(&b).ok()) {
+        Some(v) => {
+            let check = v["check"].as_str().unwrap_or("?").to_string();
+            ctx.evals(v["evaluations"].as_u64().unwrap_or(0));
+            ctx.violation(&check, format!("process crashed ({status}) while executing this case"), &v["case"]);
+        }
+        None => ctx.note_inconclusive(format!("{id}: worker died ({status}) before recording a case")),
+    }
+}
+
+/// Supervising parent for crash-isolated properties: a crash (signal) of the worker is a violation.
+fn supervise(def: &props::PropDef, args: &[String], tier: Tier, seed: u64, is_replay: bool) -> i32 {
+    let infl = inflight_path(def.id, "main");
+    let _ = std::fs::remove_file(&infl);
+    let exe = std::env::current_exe().unwrap();
+    let st = Command::new(&exe)
+        .args(args)
+        .env("VVERIF_CHILD", "1")
+        .env("VVERIF_INFLIGHT", &infl)
+        .status()
+        .expect("spawn worker");
+    let rc = match st.code() {
+        Some(c @ 0..=2) => c,
+        _ => {
+            let mut ctx = Ctx::new(def.id, tier, seed, def.level);
+            describe_only(def, &mut ctx);
+            report_crash(def.id, &infl, &format!("{st}"), &mut ctx);
+            if is_replay {
+                if ctx.violations.is_empty() { 2 } else { 1 }
+            } else {
+                ctx.finish()
+            }
+        }
+    };
+    let _ = std::fs::remove_file(&infl);
+    rc
 }
 
 /// run the property with a replay filter that matches nothing: fills rule/assumptions only
@@ -178,6 +246,7 @@ fn install_panic_hook() {
     }));
 }
 
+pub use engine_panic as _ep;
 pub mod engine_panic {
     use std::sync::Mutex;
     pub static PANICS: Mutex<Vec<String>> = Mutex::new(Vec::new());
